@@ -34,6 +34,17 @@ Theorem C17_cap_all_transactions :
 Proof. exact cap_invariant_txs. Qed.
 Print Assumptions C17_cap_all_transactions.
 
+(** From genesis: gentxs are transactions too (x/genutil delivers them through DeliverTx during InitChain, at
+    block height 0).  [cg] is the configuration the code applies at height 0.  Whatever the gentxs and whatever
+    history follows, every validator's commission is at most 25 %. *)
+Theorem C17_cap_from_genesis :
+  forall (c cg : cfg) (w : world) (minr : Z) (gentxs : list tx) (s1 : st) (dt : Z) (h : list event),
+    cfg_ok c -> cfg_ok cg -> ica_safe w -> gov_trusted c h ->
+    run_genesis cg w (st0 minr) gentxs = Some s1 ->
+    cap_ok (run_history c w (advance s1 dt) h).
+Proof. exact cap_invariant_from_genesis. Qed.
+Print Assumptions C17_cap_from_genesis.
+
 (** The literal statement, from ANY pre-state (even one that already violates the cap): a transaction
     leaves every validator either exactly as it was or with a rate of at most 25 % — "no accepted
     transaction creates a validator with, or edits a validator to, a commission rate above 25 %". *)
@@ -88,6 +99,12 @@ Theorem C17_cap_refuted_exec_early_return :
   exists h, only_txs h /\ breaks_cap (run_history cfg_exec_early_return world_plain (st0 0) h).
 Proof. exact refuted_exec_early_return. Qed.
 Print Assumptions C17_cap_refuted_exec_early_return.
+
+(** Gentxs routed to a chain without the commission decorator. *)
+Theorem C17_cap_refuted_genesis_chain_without_decorator :
+  exists gentxs s1, run_genesis cfg_genesis_no_decorator world_plain (st0 0) gentxs = Some s1 /\ breaks_cap s1.
+Proof. exact refuted_genesis_chain_without_decorator. Qed.
+Print Assumptions C17_cap_refuted_genesis_chain_without_decorator.
 
 (** Recursive decorator, wasm handler without the check (the tree before fix 248a6e6). *)
 Theorem C17_cap_refuted_without_wasm_check :
